@@ -15,7 +15,7 @@ FILES = {
 
 MC1 = {"Q": "2", "Cores": "{0}", "Syms": '{"a","b","c"}', "GSyms": '{"a","b","c","d","z"}', "QSyms": '{"a","d"}', "MaxG": "2", "MaxSlot": "3"}
 MC2 = {"O": "3", "Q": "2", "Cores": "{0,1}", "Syms": '{"a","b"}', "GSyms": '{"a","b","z"}', "QSyms": '{"a","d"}', "MaxG": "2", "MaxSlot": "2"}
-MC2Q = dict(MC2, GSyms='{"a","z"}', MaxSlot="1")
+MC2Q = dict(MC2, GSyms='{"a","b","z"}', MaxSlot="1", MaxG="1")
 
 
 def run(ctx):
